@@ -299,17 +299,21 @@ def process_template(path, crate, repo, gen=None, depth=0):
             lkey = f"{sc.module}::{sc.opts.get('as') or sc.name}"
             # R3 (second half): the sidecar signature was written against the parameter and result TYPES the function had when the
             # sidecar was recorded; a changed type must not be overridden silently by the sidecar's
+            ppairs = None
             sig_now = re.sub(r'\s+', ' ', X.join(X.strip_attrs(list(fn['sig'])))).strip()
             sig_now = re.sub(r'^(pub(\([a-z]+\))? )?', '', sig_now)
             if os.environ.get('VERIF_RECORD_LOCALS') == '1':
                 RECORDED_LOCALS['sig ' + lkey] = sig_now
+            elif LOCALS.get('sig ' + lkey) is not None and LOCALS['sig ' + lkey] != sig_now \
+                    and (ppairs := X.param_renaming(X.strip_attrs(list(fn['sig'])), LOCALS['sig ' + lkey])) is not None:
+                pass    # only parameter NAMES differ: rule R10 renames them back together with the locals (weave)
             elif LOCALS.get('sig ' + lkey) is not None and LOCALS['sig ' + lkey] != sig_now:
                 raise ExtractionError(f"signature of `{sc.name}` changed: the sidecar was written for `{LOCALS['sig ' + lkey][:200]}`, /repo has `{sig_now[:200]}`")
             if os.environ.get('VERIF_RECORD_LOCALS') == '1':
                 RECORDED_LOCALS[lkey] = X.binders(X.strip_attrs(list(fn['body'])))
                 woven = X.weave(fn, sc, log, lost, gen.unit_rewrites)
             else:
-                woven = X.weave(fn, sc, log, lost, gen.unit_rewrites, expected_locals=LOCALS.get(lkey))
+                woven = X.weave(fn, sc, log, lost, gen.unit_rewrites, expected_locals=LOCALS.get(lkey), param_pairs=ppairs)
             gen.lost.extend(lost)
             # D4: a constant of the function's module that the function mentions and the unit does not declare is extracted too
             # (so that a changed tree that introduces a constant stays inside the verifier's reach)
